@@ -61,6 +61,14 @@ pub struct SessionStore {
     sessions: HashMap<SessionId, ConversionSession>,
 }
 
+#[cfg(chokan_verif)]
+impl SessionStore {
+    /// verification hook: number of live sessions
+    pub fn verif_len(&self) -> usize {
+        self.sessions.len()
+    }
+}
+
 impl SessionStore {
     pub fn new() -> Self {
         SessionStore {
